@@ -25,7 +25,7 @@ EXPLANATION = (
     "R02.8 sibling agreement among the five rewrites that rebuild an Elemwise around transformed inputs: the optional array operands where/out "
     "are transformed with the inputs; R02.9 every operand loop of a Blockwise-family slice pushdown consults the operand's own extent (broadcast "
     "axes); R02.10 a pushdown that converts output block indices into offsets on an operand's own chunks declines on the operands' grids "
-    "(position pairing needs aligned operands). "
+    "(position pairing needs aligned operands); R02.11 a hook that rebuilds its own class recomputes layout-literal operands or is conditioned on the pushed operation. "
     "Sentences 1-2 (every phase and every fired rewrite preserves values) quantify over array contents and are not decided; "
     "the REF inventory only detects that a condition under which a rewrite used to decline was weakened."
 )
@@ -403,7 +403,9 @@ def _closure_nodes(expr, func_node, defs, limit=6):
     for c in ast.walk(func_node):
         if isinstance(c, ast.Call) and isinstance(c.func, ast.Attribute):
             r = _receiver_root(c.func.value)
-            if r is not None:
+            # only local containers are "filled" by calls rooted at them; self / parameters are not (self.operand("x") says
+            # nothing about what self derives from)
+            if r is not None and r in defs.defs and r not in defs.params and r not in ("self", "cls"):
                 chains.setdefault(r, []).extend(list(c.args) + [k.value for k in c.keywords])
     out, seen, work = [], set(), [(expr, 0)]
     while work:
@@ -565,7 +567,136 @@ def r02_10(ctx):
     return rr
 
 
-RULES = [r02_1, r02_2, r02_3, r02_4, r02_5, r02_6, r02_7, r02_8, r02_9, r02_10]
+def _closure_with_control(expr, func_node, defs, cfg, limit=6):
+    """``_closure_nodes`` plus control dependence: a flag assigned under ``if t:`` also derives from ``t``."""
+    assigns = {}
+    for st in cfg.stmts():
+        if isinstance(st, (ast.Assign, ast.AugAssign, ast.AnnAssign)):
+            targets = st.targets if isinstance(st, ast.Assign) else [st.target]
+            for t in targets:
+                for n in ast.walk(t):
+                    if isinstance(n, ast.Name):
+                        assigns.setdefault(n.id, []).append(st)
+    out, seen, work = [], set(), [expr]
+    while work:
+        e = work.pop()
+        for n in _closure_nodes(e, func_node, defs, limit):
+            out.append(n)
+            if isinstance(n, ast.Name) and n.id not in seen:
+                seen.add(n.id)
+                for st in assigns.get(n.id, []):
+                    work.extend(t for t, _pol in cfg.guards(st))
+    return out
+
+
+LAYOUT_LITERAL_REVIEWED = {
+    ("Rechunk._pushdown", "_chunks"): "Rechunk._chunks is the TARGET layout of the node's output, valid for any input of the same shape; collapsing Rechunk(Rechunk(x)) keeps the shape",
+}
+
+
+def _hook_methods(c):
+    for name, f in c.methods.items():
+        if name.startswith(("_accept_", "_simplify_", "_pushdown", "_lower")):
+            yield f
+
+
+def r02_11(ctx):
+    rr = RuleResult(
+        "R02.11", "GUARD",
+        "a rewrite hook that rebuilds its own node class does not carry a layout-literal operand (a _parameters entry naming shape/chunks: "
+        "BroadcastTo._shape/_chunks, Blockwise.adjust_chunks, Rechunk._chunks, ...) over verbatim unless the site runs under a condition on "
+        "that literal or on the pushed operation's shape/chunks: a pushed slice or take changes the extent the literal describes",
+        min_instances=6,
+    )
+    from ..cfg import CFG, stmt_of
+    from ..dataflow import Defs
+    from ..namedeps import params_of
+    from .common import chain_conjuncts
+
+    repo = ctx.repo
+    for c in repo.expr_classes():
+        if not c.module.is_unit:
+            continue
+        try:
+            params = list(params_of(repo, c))
+        except Exception:  # noqa: BLE001 - classes without a literal _parameters list carry no obligation here
+            continue
+        literals = [p for p in params if "shape" in p or "chunks" in p]
+        if not literals:
+            continue
+        for f in _hook_methods(c):
+            cfg = None
+            defs = Defs(f.node)
+            for n in body_walk(f.node):
+                if not isinstance(n, ast.Call) or not isinstance(n.func, (ast.Name, ast.Attribute)):
+                    continue
+                r = repo.resolve_expr(n.func, f.module, f)
+                same = (r is not None and r[0] == "class" and r[1].fq == c.fq) or unparse(n.func) in ("type(self)", "self.__class__")
+                if not same or any(isinstance(a, ast.Starred) for a in n.args[: len(params)]):
+                    continue
+                for L in literals:
+                    i = params.index(L)
+                    arg = n.args[i] if i < len(n.args) else next((k.value for k in n.keywords if k.arg == L), None)
+                    if arg is None:
+                        continue
+                    cst = f"{c.construct}.{f.name}::{c.name}(... {L} ...)"
+
+                    def verbatim(e, depth=0):
+                        t = unparse(e)
+                        if t in (f"self.{L}", f"self.operand('{L}')", f'self.operand("{L}")'):
+                            return True
+                        if isinstance(e, ast.Name) and depth < 4 and e.id in defs.defs and e.id not in defs.params and not defs.built_up(e.id):
+                            vs = defs.defs[e.id]
+                            return bool(vs) and all(v is not None and verbatim(v, depth + 1) for v in vs)
+                        return False
+
+                    if not verbatim(arg):
+                        rr.inst(cst, literal="recomputed", via=unparse(arg)[:40])
+                        continue
+                    if cfg is None:
+                        cfg = CFG(f.node)
+                    stmt = stmt_of(cfg, n)
+                    tests = [t for t, _pol in cfg.guards(stmt)] if stmt is not None else []
+                    pushed = [p for p in f.params if p != "self" and p != "dependents"]
+                    cond = []
+                    for t in tests:
+                        nodes = _closure_with_control(t, f.node, defs, cfg)
+                        about_pushed_extent = any(
+                            isinstance(m, ast.Attribute) and isinstance(m.value, ast.Name) and m.value.id in pushed and m.attr in ("shape", "chunks", "index", "indexer", "axis")
+                            for m in nodes
+                        )
+                        extent_only = any(
+                            isinstance(m, ast.Attribute) and isinstance(m.value, ast.Name) and m.value.id in pushed and m.attr in ("shape", "chunks")
+                            for m in nodes
+                        )
+                        about_literal = any(
+                            (isinstance(m, ast.Attribute) and m.attr == L and isinstance(m.value, ast.Name) and m.value.id == "self")
+                            or (isinstance(m, ast.Constant) and m.value == L)
+                            for m in nodes
+                        )
+                        # an extent literal (shape/chunks tuples) is changed by ANY pushed slice/take on its axis: only a test of the pushed
+                        # operation's own shape/chunks protects it; a per-index table (adjust_chunks) is protected by a test relating the
+                        # pushed operation's axis/index to the table
+                        if (L == "adjust_chunks" and about_pushed_extent and about_literal) or (L != "adjust_chunks" and extent_only):
+                            cond.append(unparse(t)[:70])
+                    if cond:
+                        rr.inst(cst, literal="verbatim under a condition relating the pushed operation to the layout", condition=cond[:2])
+                        continue
+                    key = (f"{c.name}.{f.name}", L)
+                    rr.inst(cst, literal="verbatim, unconditional")
+                    if key in LAYOUT_LITERAL_REVIEWED:
+                        rr.exempt(cst, LAYOUT_LITERAL_REVIEWED[key])
+                        continue
+                    ctx.finding(
+                        rr, cst,
+                        f"{c.name}.{f.name} rebuilds the node around a transformed input but hands over self.{L} unchanged and unconditionally: the literal describes the extent/blocks BEFORE the pushed "
+                        f"operation. da.take(da.broadcast_to(x, (2, 6, 8)), [-1, 0, -2], axis=-1) kept shape (2, 6, 8) for a 3-long axis and raised 'Chunks do not add up to shape'",
+                        func=f, node=n,
+                    )
+    return rr
+
+
+RULES = [r02_1, r02_2, r02_3, r02_4, r02_5, r02_6, r02_7, r02_8, r02_9, r02_10, r02_11]
 
 LEVEL_TEXT = (
     "Static decision of sentence 3 of C02 (fusion preserves the output-block -> input-block mapping) as sibling agreement "
